@@ -17,6 +17,7 @@ type c08Add struct {
 	Sub c08Sub `command:"sub" alias:"s1" alias:"s2"`
 	Oth c08Oth `command:"oth"`
 }
+
 // the intermediate command is executable: that does not excuse a missing
 // required subcommand
 var c08AddRuns int
@@ -42,6 +43,11 @@ func H_C08_tree(v *V) {
 	addOptional := v.Choice(2) == 1
 	if addOptional {
 		p.Find("add").SubcommandsOptional = true
+	}
+	if v.Choice(2) == 1 {
+		// hidden subcommands resolve and are required like visible ones
+		p.Find("add").Find("sub").Hidden = true
+		p.Find("add").Find("oth").Hidden = true
 	}
 	// the named path
 	path := v.Choice(5) // 0: none, 1: add, 2: add sub, 3: add oth, 4: rm
